@@ -965,10 +965,19 @@ def op_records(data):
     out = []
     for sg in root.tables(2):
         names = [t.string(3) or "" for t in sg.tables(0)]
+        sigs = {}
+        for t in sg.tables(0):
+            q = t.table(4)
+            quant = (tuple(q.vector(2, "f") or []), tuple(q.vector(3, "q") or []), q.scalar(6, "i")) if q is not None else None
+            if quant is not None and not quant[0] and not quant[1]:
+                quant = None
+            # (shape, data type, quantisation): what a consumer is told about the tensor
+            sigs.setdefault(t.string(3) or "", (tuple(t.vector(0, "i") or []), t.scalar(1, "b"), quant))
         for o in sg.tables(3):
             code, custom = codes[o.scalar(0, "I")]
             ins = [names[i] if i >= 0 else "~" for i in (o.vector(1, "i") or [])]
             outs = [names[i] if i >= 0 else "~" for i in (o.vector(2, "i") or [])]
+            in_sigs = [sigs.get(n) for n in ins]
             otype = o.scalar(3, "B")
             fields = []
             t = o.table(4)
@@ -991,5 +1000,41 @@ def op_records(data):
             esc = lambda s: s.replace(" ", "_").replace("|", "_")  # noqa: E731
             canon = "|".join([str(code), esc(custom), str(otype), ",".join(fields) or "-", co.hex() if co else "-",
                               ",".join(esc(n) for n in ins) or "-", ",".join(esc(n) for n in outs) or "-"])
-            out.append({"code": code, "custom": custom, "outs": outs, "canon": canon})
+            out.append({"code": code, "custom": custom, "ins": ins, "outs": outs, "canon": canon, "in_sigs": in_sigs,
+                        "out_sigs": [sigs.get(n) for n in outs]})
     return out
+
+
+def alias_tokens(src_records, so, oo):
+    """For every input position where the output operator `oo` reads another tensor name than the source operator
+    `so`: describe, from the SOURCE graph only, how the expected tensor is produced from the one actually read — the
+    chain of operators (following each producer's first input), whether each link keeps shape / type+quantisation,
+    and whether the two end tensors carry the same (shape, type, quantisation) in source and output file.
+    Only extraction: Spec.Alias.ok (Lean) decides whether such a substitution leaves the operator unchanged."""
+    esc = lambda s: s.replace(" ", "_").replace("|", "_")  # noqa: E731
+    prod = {}
+    for r in src_records:
+        for n in r["outs"]:
+            prod.setdefault(n, r)
+    toks = []
+    if len(so["ins"]) != len(oo["ins"]):
+        return toks
+    for k, (x, y) in enumerate(zip(so["ins"], oo["ins"])):
+        if x == y:
+            continue
+        links, cur, found = [], x, False
+        for _ in range(16):
+            p = prod.get(cur)
+            if p is None or not p["ins"]:
+                break
+            a, b = p["in_sigs"][0], p["out_sigs"][p["outs"].index(cur)]
+            same_shape = int(a is not None and b is not None and a[0] == b[0])
+            same_tq = int(a is not None and b is not None and a[1:] == b[1:])
+            links.append(f"{p['code']}.{same_shape}.{same_tq}")
+            cur = p["ins"][0]
+            if cur == y:
+                found = True
+                break
+        same_sig = int(found and so["in_sigs"][k] is not None and so["in_sigs"][k] == oo["in_sigs"][k])
+        toks.append(f"{esc(x)};{esc(y)};{same_sig};{','.join(links) if found and links else '-'}")
+    return toks
